@@ -64,6 +64,22 @@ Theorem C10_undef : forall fuel t c cur out cp alias,
   | _ => False
   end.
 Proof. exact undef_scope. Qed.
+(** ... and the aliases are independent of each other: giving a register a second name, or removing one name, changes the
+    meaning of no OTHER name (two names for one register both stay valid; .undef of one leaves the other). *)
+Theorem C10_def_keeps_others : forall fuel t c cur out cp alias reg c' cur' out' other,
+  pass2_item fuel t (c, cur, out) (cp, IDef alias (EIdent reg)) = Ok (c', cur', out') ->
+  str_eqb (lower other) (lower alias) = false -> get_def c' other = get_def c other.
+Proof. exact def_keeps_others. Qed.
+Theorem C10_undef_keeps_others : forall fuel t c cur out cp alias c' cur' out' other,
+  pass2_item fuel t (c, cur, out) (cp, IUndef alias) = Ok (c', cur', out') ->
+  str_eqb (lower other) (lower alias) = false -> get_def c' other = get_def c other.
+Proof. exact undef_keeps_others. Qed.
+(** .set / .def / .undef act the same in whatever segment they are written: pass 2 walks the items of every segment - data
+    segments included - and the three directives do not look at the segment type. *)
+Theorem C10_symbol_directives_in_every_segment : forall fuel t t' st cp it,
+  match it with ISet _ _ | IDef _ _ | IUndef _ => True | _ => False end ->
+  pass2_item fuel t st (cp, it) = pass2_item fuel t' st (cp, it).
+Proof. intros fuel t t' [[c cur] out] cp it H. destruct it; try contradiction; reflexivity. Qed.
 Theorem C10_alias_is_register : forall fuel cx name n,
   get_def cx name = Some n -> run fuel cx (EIdent name) = Err None ->
   view_of fuel cx (OE (EIdent name)) = view_of fuel cx (OR8 n).
